@@ -309,9 +309,9 @@ Theorem codec_ok_aligned_utf8 : forall enc c, lookup_codec enc = LOk (B "utf-8")
 Proof.
   intros enc c H. pose proof H as H0. canon_is "utf-8" utf8 H0.
   exists utf8, [], (enc_all u8_enc_cp). split.
-  - apply (codec_laws_of_cp enc (B "utf-8") utf8 [] u8_enc_cp u8_dec); auto using u8_step, u8_nl_ok.
-    + intros t. rewrite option_map_app_nil. reflexivity.
-    + vm_compute. reflexivity.
+  - apply (codec_laws_of_cp enc (B "utf-8") utf8 [] u8_enc_cp u8_dec);
+      [exact H | intros t; rewrite option_map_app_nil; reflexivity | reflexivity | reflexivity
+      | exact u8_step | exact u8_nl_ok | vm_compute; reflexivity].
   - apply aligned_u8. intros [].
 Qed.
 
@@ -319,7 +319,8 @@ Theorem codec_ok_aligned_utf8sig : forall enc c, lookup_codec enc = LOk (B "utf-
 Proof.
   intros enc c H. pose proof H as H0. canon_is "utf-8-sig" utf8sig H0.
   exists utf8sig, bom8, (enc_all u8_enc_cp). split.
-  - apply (codec_laws_of_cp enc (B "utf-8-sig") utf8sig bom8 u8_enc_cp u8_dec); auto using u8_step, u8_nl_ok.
-    vm_compute. reflexivity.
+  - apply (codec_laws_of_cp enc (B "utf-8-sig") utf8sig bom8 u8_enc_cp u8_dec);
+      [exact H | reflexivity | reflexivity | reflexivity
+      | exact u8_step | exact u8_nl_ok | vm_compute; reflexivity].
   - apply aligned_u8. cbv. intuition discriminate.
 Qed.
